@@ -118,6 +118,8 @@ def matmul_probe(ctx):
 
 
 def run(ctx):
+    for k in range(ctx.n(40, 600)):
+        late_rvar_biaffine(ctx, int(ctx.rng.integers(2 ** 31)))
     # the expression language of Props/C05Expr (compile_correct): the Lean compiler vs the real API, linear and constant parts entry by entry
     C.run_difftest(ctx, 'test_aff_expr.py', ctx.n(400, 6000), 'array algebra: compiled (linear, const) of random expression trees')
     matmul_probe(ctx)
@@ -126,6 +128,48 @@ def run(ctx):
         tree_case(ctx, seed, int(ctx.rng.integers(1, 6)))
     ctx.search_cases = ctx.evaluations
     components(ctx)
+
+
+def late_rvar_biaffine(ctx, seed):
+    """bi-affine expressions built before and after a further rvar() declaration combine to NumPy's value"""
+    from rsome import ro
+    r = np.random.default_rng(seed)
+    ctx.search_cases += 1; ctx.evaluations += 1
+    n = int(r.integers(1, 4)); k1 = int(r.integers(1, 3)); k2 = int(r.integers(1, 4))
+    m = ro.Model(); x = m.dvar(n); z1 = m.rvar(k1 if k1 > 1 else 1) if k1 > 1 else m.rvar(1)
+    a = r.integers(-2, 3, n).astype(float); c1 = r.integers(-2, 3, n).astype(float)
+    how1 = str(r.choice(['x+z', 'x*z', 'a*z+x']))
+    zz1 = z1[0] if z1.size > 1 or True else z1
+    e1 = {'x+z': lambda: x + zz1, 'x*z': lambda: x * zz1 + c1, 'a*z+x': lambda: a * zz1 + x}[how1]()
+    z2 = m.rvar(k2)
+    w = r.integers(-2, 3, k2).astype(float)
+    e2 = (x * (w @ z2)) if r.random() < 0.5 else (x + w @ z2)
+    op = str(r.choice(['e1+e2', 'e2+e1', 'e1-e2', 'e2-e1']))
+    case = {"late_seed": seed, "first": how1, "combine": op, "n": n, "random_vars": [int(z1.size), k2]}
+    try:
+        e3 = {'e1+e2': lambda: e1 + e2, 'e2+e1': lambda: e2 + e1, 'e1-e2': lambda: e1 - e2, 'e2-e1': lambda: e2 - e1}[op]()
+    except Exception as ex:
+        ctx.hit('late-rvar-biaffine-raises:' + type(ex).__name__, {"error": str(ex)[:160]}, case); return
+    xv = r.integers(-3, 4, n).astype(float); z1v = r.integers(-3, 4, int(z1.size)).astype(float); z2v = r.integers(-3, 4, k2).astype(float)
+    v1 = {'x+z': xv + z1v[0], 'x*z': xv * z1v[0] + c1, 'a*z+x': a * z1v[0] + xv}[how1]
+    v2 = (xv * (w @ z2v)) if 'x * ' in str(type(e2)) or False else None
+    # value of e2 from its own record (it was built after all random variables existed) - evaluated through the same routine
+    def value(e):
+        zv = np.concatenate([z1v, z2v])
+        ra = e.raffine; af = e.affine
+        L = C.dense(ra.linear); xx = np.zeros(L.shape[1]); xx[x.first:x.first + n] = xv
+        R = (L @ xx).reshape(ra.shape) + ra.const
+        Rz = R[:, :zv.size] @ zv[:R.shape[1]]
+        La = C.dense(af.linear) if hasattr(af, 'linear') else None
+        av = (La @ xx[:La.shape[1]]).reshape(-1) + np.asarray(af.const).reshape(-1) if La is not None else np.asarray(af).reshape(-1)
+        return Rz + av
+    want2 = value(e2)
+    want = {'e1+e2': v1 + want2, 'e2+e1': v1 + want2, 'e1-e2': v1 - want2, 'e2-e1': want2 - v1}[op]
+    got = value(e3)
+    if got.shape != want.shape or not np.allclose(got, want):
+        ctx.hit('late-rvar-biaffine-wrong-value', {"got": got.tolist(), "numpy": want.tolist()}, case)
+    else:
+        ctx.count('late-rvar:ok')
 
 
 def search_only(ctx):
